@@ -717,3 +717,10 @@ def repaired : Program :=
     registryPerObject := true }
 
 end GroupByCode
+
+/-- A container that can hold every position hands them all back. -/
+theorem GroupByIR.PosContainer.store_ok {c : GroupByIR.PosContainer} {ps : List Int}
+    (h : ∀ p ∈ ps, c.holds p = true) : c.store ps = .ok ps := by
+  unfold GroupByIR.PosContainer.store
+  rw [if_pos]
+  exact List.all_eq_true.mpr h
